@@ -28,7 +28,7 @@ PROPS = {
         projection="contents_formatted / state_formatted bytes (Emit.contents_formatted_t, state_formatted_t) and the screen state they are computed from",
     ),
     "C02": dict(
-        level_text='PARTIAL, with the unrestricted statement REFUTED: the statement is the executable byte-level round trip DiffRound.diff_round_ok (fresh parser, bytes of state_formatted(P), bytes of state_diff(S,P), obs compared). C02_refuted: false of the model for reachable 2x2 screens (open finding D10, replayed on the crate, KNOWN_FINDINGS.txt). PROVED (Props/C02sem.v; DiffPaint, DiffGrid, DiffMain, DiffRoundU): C02sem_W — for ALL reachable P, S of equal size at scrollback offset 0 in which every soft-wrapped row, and the row after it, has the same cells in P and S (class W; contains every pair without soft-wrapped rows, C02sem_U), diff_round_ok P S holds, with no callback event and a ground parser (C02sem_W_strong); C02sem_chain_W / C02sem_chain_U — a single receiver fed diff(S1,S0), diff(S2,S1), ... stays equal to the latest snapshot; C02_total/C02_bytes — for all reachable pairs the diff emitters succeed and every token re-parses exactly; C02_equal_obs. Wide and combining characters, colours, hidden cursor, pending-wrap cursors, alternate screen are inside the class. OUTSIDE the theorem: pairs in which the diff changes a soft-wrapped row or the row after one (the wrap-carry and flag-repair paths, where D10 lives) — decided by the differential correspondence of the diff bytes plus the oracle (prefix pairs, independent pairs, chains), D10 suppressed only for its exact shape.',
+        level_text='FULL at scrollback offset 0 outside the exact class k10 of the open finding D10; the unrestricted statement is REFUTED. Statement = the executable byte-level round trip DiffRound.diff_round_ok (fresh parser, bytes of state_formatted(P), bytes of state_diff(S,P), obs compared). C02_refuted: false of the model for reachable 2x2 screens (D10, replayed on the crate). C02sem_K (Props/C02k10.v; DiffWrap, DiffK10, DiffRoundK on top of DiffPaint/DiffGrid/DiffMain): for ALL reachable P, S of equal size at offset 0 with k10 P S = false, diff_round_ok P S (+ no callback event, ground parser: C02sem_K_strong), where the executable predicate k10 P S says: some row r (not the last) is soft-wrapped in both screens, P has a wide character at column cols-2 of that row where S has no contents, and the first cells of row r+1 are equal in P and S; C02k10_d10: the D10 witness satisfies k10; C02k10_W_inside / C02k10_U_inside: pairs whose wrapped rows are untouched, and pairs without wrapped rows, are outside k10; C02sem_K_chain: one receiver fed diff(S1,S0), diff(S2,S1), ... stays equal to the latest snapshot for every chain whose consecutive pairs avoid k10. Before proving, the byte-level round trip was evaluated by vm_compute on 50 250 929 ordered pairs of small screens with wrapped rows: 374 454 fail, all only in wrap flags, and failing <=> k10 on every explored pair (the converse is not proved). C02_total / C02_bytes: for all reachable pairs the diff emitters succeed and every token re-parses. Scrolled views (offset > 0) are carried by the differential correspondence of the diff bytes plus the oracle.',
         families=[("emit", 1500, 60000), ("wrapdiff", 1500, 40000), ("cursorfix", 500, 10000), ("modes", 300, 4000)],
         projection="contents_diff / state_diff bytes (Emit.contents_diff_t, state_diff_t) against snapshots",
     ),
@@ -64,12 +64,12 @@ PROPS = {
     ),
     "C09": dict(
         level_text='FULL: table semantics of every single parameter, extended colours incl. colon forms and malformed groups, sequencing, encoder round trip C09_diff for all pen pairs, attributes_formatted on any receiver pen, finite sweep 0..255.',
-        families=[("sgr", 2000, 60000), ("table", 1500, 40284)],
+        families=[("sgr", 2000, 60000), ("table", 1500, 43572)],
         projection="Screen.sgr, Attrs.sgr_diff, attributes_formatted bytes", model_decides=True,
     ),
     "C10": dict(
         level_text='FULL: mode_effect table over the 240-state space, independence from all other state and input (C10_independent), most-recent-wins, formatted/diff round trips for all pairs, emptiness iff equal.',
-        families=[("modes", 2000, 40000), ("table", 1500, 40284)],
+        families=[("modes", 2000, 40000), ("table", 1500, 43572)],
         projection="mode fields of the screen, input_mode_formatted / input_mode_diff bytes", model_decides=True,
     ),
     "C11": dict(
@@ -93,7 +93,7 @@ PROPS = {
         projection="contents(), rows(start,width), contents_between() text", model_decides=True,
     ),
     "C15": dict(
-        level_text='FULL for blank/aligned receivers at offset 0, PARTIAL for wrapped rows in the diff clause: C15_full_reachable_obs — the row-wise protocol (rows_formatted(0,cols) row by row, continuing unpositioned after a wrapped row, then cursor_state_formatted, attributes_formatted, input_mode_formatted) on a blank receiver of the same size reproduces obs S for every reachable screen at offset 0; C15_window / C15_window_row — for every aligned proper sub-window, drawing row i at (i,start) on rows blank from start on reproduces the cells inside the window; C15diff_window / C15diff_window_row / C15diff_full (Props/C15diff.v) — drawing row i of rows_diff(prev,start,width) at (i,start) on a receiver whose rows show prev turns the cells inside the window into the current ones (cells before start untouched), for screens without soft-wrapped rows and windows left-aligned to wide-character boundaries in both screens; rows_formatted/rows_diff never panic for ALL windows (C03), tokens re-parse (C01tok), self-diff empty (C19). Outside the theorems: rows_diff on wrapped rows (shares the wrap-carry paths of C02), carried by correspondence of the row bytes plus the protocol oracle.',
+        level_text='FULL at offset 0 for blank receivers and aligned windows; the diff clause FULL at full width, for sub-windows on unwrapped rows: C15_full_reachable_obs — the row-wise protocol (rows_formatted(0,cols) row by row, continuing unpositioned after a wrapped row, then cursor_state_formatted, attributes_formatted, input_mode_formatted) on a blank receiver of the same size reproduces obs S for every reachable screen at offset 0; C15_window / C15_window_row — every aligned proper sub-window, drawing row i at (i,start) on rows blank from start on reproduces the cells inside the window; C15diffK_full (Props/C15diffK.v) — full-width rows_diff with the window protocol on a receiver showing prev ends with the current cells in every row, no class restriction; C15diff_window / C15diff_window_row — sub-window diffs (left-aligned in both screens) on screens without soft-wrapped rows turn the cells inside the window into the current ones and leave the cells before start untouched; rows_formatted/rows_diff never panic for ALL windows (C03), tokens re-parse (C01tok), self-diff empty (C19). Outside the theorems: sub-window diffs on soft-wrapped rows and scrolled views, carried by correspondence of the row bytes plus the protocol oracle.',
         families=[("emit", 1500, 50000), ("wrapdiff", 800, 20000), ("cursorfix", 500, 10000)],
         projection="rows_formatted / rows_diff / cursor_state_formatted / attributes_formatted bytes",
     ),
@@ -109,7 +109,7 @@ PROPS = {
     ),
     "C18": dict(
         level_text='FULL: events_of table with C18_exact for every action, inertness of reported actions, silence of implemented ones, exactly-one-action theorems for general CSI/ESC/OSC grammars incl. limits.',
-        families=[("csi", 1500, 50000), ("chunk", 500, 10000), ("table", 2500, 40284)],
+        families=[("csi", 1500, 50000), ("chunk", 500, 10000), ("table", 2500, 43572)],
         projection="callback event log and vte action stream", model_decides=True,
     ),
     "C19": dict(
@@ -126,7 +126,7 @@ _ROOT = os.path.dirname(os.path.dirname(os.path.abspath(__file__)))
 # Every check also runs a slice of the broad families: a change that breaks property X often
 # manifests only in a scenario another family generates, and the state correspondence compares
 # the complete dump on every script whatever its family.
-BROAD = [("stream", 400, 8000), ("csi", 400, 8000), ("emit", 300, 6000), ("resize", 200, 4000), ("table", 300, 10000), ("exh", 6000, 1213568)]
+BROAD = [("stream", 400, 8000), ("csi", 400, 8000), ("emit", 300, 6000), ("resize", 200, 4000), ("table", 300, 43572), ("exh", 6000, 1213568), ("opx", 8000, 885120)]
 for _pid, _info in PROPS.items():
     _have = {f for f, _, _ in _info["families"]}
     _info["families"] = list(_info["families"]) + [b for b in BROAD if b[0] not in _have]
